@@ -919,6 +919,9 @@ class Tensor:
 
     # ---- element-wise math
     def exp(self):
+        c = Ctx.current
+        if c is not None:
+            c.event('exp')
         return _ew1(lambda a: tm.app('exp', a), self, floatout=True)
 
     def log(self):
@@ -1057,6 +1060,22 @@ class Tensor:
 
     def quantile(self, q, dim=None, keepdim=False):
         return quantile(self, q, dim, keepdim)
+
+    def kthvalue(self, k, dim=-1, keepdim=False):
+        """Assumed contract: the k-th smallest element (1-based) along dim"""
+        d = self._dim(dim)
+        sh = self._shape
+        rd = self.reader()
+        c = ctx()
+        kt = ti(norm_int(k))
+        c.oblige('pre', 'kthvalue: 1 <= k <= size', tm.and_(tm.le(tm.IONE, kt), tm.le(kt, ti(sh[d]))))
+        newshape = sh[:d] + ((1,) if keepdim else ()) + sh[d + 1:]
+
+        def f(idx):
+            bv = c.fresh('o', 'I')
+            full = idx[:d] + (bv,) + (idx[d + 1:] if keepdim else idx[d:])
+            return tm.app('ostat_bot', tm.sub(kt, tm.IONE), tm.big('bag', bv, tm.IZERO, ti(sh[d]), rd(full)))
+        return _ValuesIndices(Tensor.fresh(f, newshape, self.dtype, self.deps), None)
 
     def sort(self, dim=-1, descending=False):
         raise Unsupported('sort')
@@ -1355,6 +1374,8 @@ def _reduce(kind, t, dim, keepdim):
     c = ctx()
     if kind in ('all', 'any'):
         conv = _truth
+    elif kind in ('sum', 'mean') and t.dtype.cat == 0:
+        conv = (lambda b_: tm.ite(b_, tm.IONE, tm.IZERO)) if kind == 'sum' else (lambda b_: tm.ite(b_, tm.ONE, tm.ZERO))
     else:
         conv = None
     out_shape = tuple((1 if k in dims else s) for k, s in enumerate(sh)) if keepdim else tuple(s for k, s in enumerate(sh) if k not in dims)
